@@ -93,9 +93,9 @@ CLAIMED = {
         "DESIGN.md §3 C16",
     ),
     "C14": (
-        "explicit-state exploration of (URL, locale) under locale-switch sequences plus exhaustive single calls, on the real path functions reached through the verif_hooks feature",
-        "For 7 locale sets (names that are prefixes of each other and of path words), 6 base-path spellings and a route table with static / param / optional / splat / localized segments: get_locale_from_path on every short path against a whole-segment oracle, and a BFS over every sequence of <= 3 (thorough 4) locale switches from every page URL in every locale (with/without query, fragment, route table), each step calling the real get_new_path: only the prefix and the localized segments may change, A->B->A returns the original URL, and the locale read back is the one switched to.",
-        "Seam RT via cargo feature verif_hooks (thin re-exports of the private functions; named in the property's hook_needed). The browser glue (effects, navigate, popstate) needs web_sys and is modelled by the driver; generate_routes/match_nested on real route objects are not yet driven (segment tables are built by hand in the shape generate_routes produces).",
+        "explicit-state exploration of (URL, locale) under locale-switch sequences plus exhaustive single calls, on the real path functions (verif_hooks feature) and on a natively built <I18nRoute> (generate_routes / match_nested over a closed path universe, plain leptos_router as reference)",
+        "For 7 locale sets (names that are prefixes of each other and of path words), 6 base-path spellings and a route table with static / param / optional / splat / localized segments: get_locale_from_path on every short path against a whole-segment oracle, and a BFS over every sequence of <= 3 (thorough 4) locale switches from every page URL in every locale (with/without query, fragment, route table), each step calling the real get_new_path: only the prefix and the localized segments may change, A->B->A returns the original URL, the locale read back is the one switched to, and the real route objects match the URL before and after as the same route with the same parameters. The real <I18nRoute> (children written with i18n_path!) is built natively per locale set: its generate_routes() must be the N+1 families, the segment tables it stores (used for the switches above) the per-locale tables, and match_nested() on every path of <= 3-4 segments over locale names, localized words, glued / truncated / upper-cased names must read a locale only from a first segment equal to a locale name.",
+        "Seam RT via cargo feature verif_hooks (thin re-exports of the private functions; named in the property's hook_needed). The browser glue (effects, navigate, popstate, view_wrapper) needs web_sys and is modelled by the driver. Plain leptos_router (the same table with static segments in one locale's words) is the trusted reference for what a route table matches.",
         "DESIGN.md §3 C14",
     ),
     "C20": (
